@@ -64,7 +64,7 @@ def tableH (table : List (Bytes × Bytes)) (x : Bytes) : Bytes :=
 partial def walkKeys (useTokens : Bool) (prev rest : Bytes) (toks : List Bytes) : List (Bytes × Bytes) :=
   if rest.length < Chunked.headerSize + Chunked.hashSize then []
   else
-    let s := Chunked.sizeOf rest
+    let s := Chunked.bodySize rest
     if s > Chunked.chunkSize || Chunked.headerSize + s + Chunked.hashSize > rest.length then []
     else match toks with
       | [] => []
